@@ -9,9 +9,12 @@
 (***************************************************************************)
 EXTENDS JtCallShape, Json
 
-CONSTANTS MaxSteps
+CONSTANTS MaxSteps,
+          Reduced     \* TRUE: only on / off / decorate / call-well / call-ill (longer exhaustive sequences)
 Spellings == {"bool:True", "bool:False", "1", "0", "true", "FALSE", "tRuE", "yes", "2", "", "None", "on"}
 FnKinds == {"plain", "ntc_above", "ntc_below"}
+\* the item name is case-insensitive ("jaxtyping_disable", "JAXTYPING_DISABLE", ...); an unknown item is a ValueError
+ItemNames == {"jaxtyping_disable", "JAXTYPING_DISABLE", "Jaxtyping_Disable", "jaxtyping_nosuchitem"}
 
 VARIABLES dis, fn, obs, hist, ohist
 vars == <<dis, fn, obs, hist, ohist>>
@@ -19,15 +22,21 @@ Init == dis = FALSE /\ fn = "none" /\ obs = "init" /\ hist = << >> /\ ohist = <<
 Rec(a, o) == hist' = Append(hist, a) /\ obs' = o /\ ohist' = Append(ohist, o)
 Can == Len(hist) < MaxSteps
 
-Update(v) == /\ Can
-             /\ LET p == ParseSwitch(v) IN
+Update(item, v) ==
+             /\ Can
+             /\ LET p == IF item = "jaxtyping_nosuchitem" THEN "ValueError" ELSE ParseSwitch(v) IN
                 /\ dis' = IF p = "on" THEN TRUE ELSE IF p = "off" THEN FALSE ELSE dis
-                /\ Rec([op |-> "update", v |-> v], IF p = "ValueError" THEN "ValueError" ELSE "ok")
+                /\ Rec([op |-> "update", item |-> item, v |-> v], IF p = "ValueError" THEN "ValueError" ELSE "ok")
              /\ UNCHANGED fn
 Decorate(k) == /\ Can /\ fn' = k /\ UNCHANGED dis /\ Rec([op |-> "decorate", kind |-> k], "ok")
 CallRes(typed) == IF dis \/ fn \in {"ntc_above", "ntc_below"} THEN "ok" ELSE IF typed = "ill" THEN "TCE" ELSE "ok"
 Call(typed) == /\ Can /\ fn # "none" /\ UNCHANGED <<dis, fn>> /\ Rec([op |-> "call", typed |-> typed], CallRes(typed))
-Next == (\E v \in Spellings : Update(v)) \/ (\E k \in FnKinds : Decorate(k)) \/ (\E t \in {"well", "ill"} : Call(t))
+\* the canonical item name with every spelling of the value; the other item names with two values
+NextReduced == Update("jaxtyping_disable", "bool:True") \/ Update("jaxtyping_disable", "bool:False") \/ Decorate("plain")
+               \/ Call("well") \/ Call("ill")
+NextFull == (\E v \in Spellings : Update("jaxtyping_disable", v))
+        \/ (\E item \in ItemNames \ {"jaxtyping_disable"}, v \in {"bool:True", "0"} : Update(item, v)) \/ (\E k \in FnKinds : Decorate(k)) \/ (\E t \in {"well", "ill"} : Call(t))
+Next == IF Reduced THEN NextReduced ELSE NextFull
 Spec == Init /\ [][Next]_vars
 
 DisabledIsPlain == (obs = "TCE") => ~dis
